@@ -2651,6 +2651,7 @@ func (pid *PID) setBehavior(behavior Behavior) {
 // resetBehavior is a utility function resets the actor behavior
 func (pid *PID) resetBehavior() {
 	pid.fieldsLocker.Lock()
+	pid.behaviorStack.Reset()
 	pid.behaviorStack.Push(pid.actor.Receive)
 	pid.fieldsLocker.Unlock()
 }
